@@ -205,8 +205,8 @@ Inductive how := Served | Derived | Computed.
    ..._needed examples of Proofs/Cache.v. *)
 Record mech := mkMech { m_clear_on_cache : bool; m_copy_dict : bool; m_deriv_after_cm : bool;
                         m_cleanup_pops_eig : bool }.
-(* the current source: all four repairs are in (the fourth: cleanup('conservative') also drops the
-   eigenbasis-dependent intermediates, commit 7378d31) *)
+(* the current source: all four repairs are in (the fourth: cleanup('conservative') also resets the
+   intermediates, commit 9d58c0f) *)
 Definition fixed : mech := mkMech true true true true.
 
 (* ------------------------------------------------------------------ cleanup *)
@@ -219,12 +219,15 @@ Definition attr_target_of (a : string) : option attr_target :=
   else option_map ASlot (find (fun s => String.eqb (slot_name s) a) all_slots).
 Definition key_of (a : string) : option ikey := find (fun k => String.eqb (key_name k) a) all_keys.
 
-(* the literal set in the 'frequency dependent' branch (tied to Src.cleanup_branches in Tie/C07.v) *)
+(* the literal sets in the 'frequency dependent' and 'conservative' branches (tied to Src.cleanup_branches in
+   Tie/C07.v); the conservative one since commit 9d58c0f: the intermediates are expressed in the eigenbasis that
+   is being dropped *)
 Definition fd_extra_attrs : list string := ["_control_matrix"; "_control_matrix_pc"; "_total_phases"].
+Definition cons_extra_attrs : list string := ["_intermediates"].
 
 Definition cleanup_attrs (m : cleanup_method) : list string :=
   match m with
-  | Conservative => Src.cleanup_default_attrs
+  | Conservative => Src.cleanup_default_attrs ++ cons_extra_attrs
   | Greedy => Src.cleanup_default_attrs ++ Src.cleanup_concatenation_attrs
   | FreqDep => Src.cleanup_filter_function_attrs ++ fd_extra_attrs
   | CleanAll => Src.cleanup_filter_function_attrs ++ Src.cleanup_default_attrs
@@ -478,12 +481,12 @@ Definition get_deriv (g : grid) : M (tag * how) :=
   may_raise L_gradff ;;;
   ret (v, Computed).
 
-(* cleanup(method) as called by the user; before commit 7378d31 the conservative mode kept the intermediates
-   that are expressed in the eigenbasis being dropped *)
+(* cleanup(method) as called by the user; before commit 9d58c0f the conservative mode kept the intermediates
+   although some of them are expressed in the eigenbasis being dropped *)
 Definition cleanup_user (m : cleanup_method) : M unit :=
   match m with
   | Conservative =>
-      if m_cleanup_pops_eig mc then cleanup m else seq_all clear_attr (cleanup_attrs Conservative)
+      if m_cleanup_pops_eig mc then cleanup m else seq_all clear_attr Src.cleanup_default_attrs
   | _ => cleanup m
   end.
 
